@@ -383,5 +383,5 @@ class MassProlongF(ProlongF):
 
 CONTRACTS = [Restrict, Prolong, ProlongF, CycleFixedPoint, MassRestrict, MassProlong, MassProlongF] + _stage_order_contracts()
 UNDECIDED = ['multigrid iteration-matrix clause (one multilevel iteration = multigrid-in-time matrix) is not machine-checked',
-             'BaseTransfer_mass, BaseTransferMPI and three-level cycles are not under contract',
+             'BaseTransferMPI and three-level cycles are not under contract',
              'concrete space transfer classes (mesh_to_mesh, FFT) enter only through their linearity (C11)']
